@@ -1239,6 +1239,7 @@ func (r *Resolver) addSubscription(triggerID uint64, add *addSubscription) error
 	}
 	r.triggers[triggerID] = trig
 	updater.subsFn = trig.subscriptionIds
+	updater.trig = trig
 	r.registerSubscriptionLocked(trig, s)
 
 	if r.reporter != nil {
@@ -1265,12 +1266,12 @@ func (r *Resolver) addSubscription(triggerID uint64, add *addSubscription) error
 				sub.writeError(r.errorFormatter, sub.ctx, err, sub.resolve.Response)
 			}
 			verifYield("trigger.startFailed", int64(triggerID), 0)
-			r.doneTriggerFromUpdater(triggerID)
+			r.doneTriggerFromUpdater(trig)
 			return
 		}
 
 		verifYield("trigger.afterStart", int64(triggerID), 0)
-		r.markTriggerInitialized(triggerID)
+		r.markTriggerInitialized(trig)
 
 		if r.options.Debug {
 			fmt.Printf("resolver:trigger:started:%d\n", triggerID)
@@ -1286,10 +1287,19 @@ func (r *Resolver) getTrigger(id uint64) (*trigger, bool) {
 	return trig, ok
 }
 
-// markTriggerInitialized marks a trigger as initialized and reports it.
-func (r *Resolver) markTriggerInitialized(triggerID uint64) {
-	trig, ok := r.getTrigger(triggerID)
-	if !ok {
+// isRegisteredLocked reports whether trig is still the trigger registered under its id.
+// r.mu must be held by the caller.
+func (r *Resolver) isRegisteredLocked(trig *trigger) bool {
+	cur, ok := r.triggers[trig.id]
+	return ok && cur == trig
+}
+
+// markTriggerInitialized marks a trigger as initialized and reports it, unless the trigger has
+// been removed in the meantime (then nobody would ever report the matching decrement).
+func (r *Resolver) markTriggerInitialized(trig *trigger) {
+	r.mu.Lock()
+	defer r.mu.Unlock()
+	if !r.isRegisteredLocked(trig) {
 		return
 	}
 	trig.initialized.Store(true)
@@ -1300,12 +1310,18 @@ func (r *Resolver) markTriggerInitialized(triggerID uint64) {
 
 // doneTriggerFromUpdater performs cleanup for a trigger from a datasource/updater goroutine.
 // It detaches the trigger, runs done toClose (close completed channels), and cancels the trigger context.
-func (r *Resolver) doneTriggerFromUpdater(triggerID uint64) {
+func (r *Resolver) doneTriggerFromUpdater(trig *trigger) {
 	if r.options.Debug {
-		fmt.Printf("resolver:trigger:shutdown:%d\n", triggerID)
+		fmt.Printf("resolver:trigger:shutdown:%d\n", trig.id)
 	}
 	r.mu.Lock()
-	res := r.detachTriggerLocked(triggerID)
+	if !r.isRegisteredLocked(trig) {
+		// Already removed; a newer trigger with the same id must not be torn down.
+		r.mu.Unlock()
+		trig.cancel()
+		return
+	}
+	res := r.detachTriggerLocked(trig.id)
 	if r.reporter != nil {
 		r.reporter.SubscriptionCountDec(res.removed)
 		if res.initialized {
@@ -1321,11 +1337,7 @@ func (r *Resolver) doneTriggerFromUpdater(triggerID uint64) {
 
 // handleTriggerComplete delivers a complete signal to all subscriptions on the trigger.
 // Does NOT detach the trigger — Done() does that.
-func (r *Resolver) handleTriggerComplete(triggerID uint64) {
-	trig, ok := r.getTrigger(triggerID)
-	if !ok {
-		return
-	}
+func (r *Resolver) handleTriggerComplete(trig *trigger) {
 	subs := trig.snapshotSubscriptions()
 
 	for _, s := range subs {
@@ -1338,11 +1350,7 @@ func (r *Resolver) handleTriggerComplete(triggerID uint64) {
 
 // handleTriggerError delivers a terminal error to all subscriptions on the trigger,
 // bypassing the resolve pipeline. Does NOT detach the trigger — Done() does that.
-func (r *Resolver) handleTriggerError(triggerID uint64, data []byte) {
-	trig, ok := r.getTrigger(triggerID)
-	if !ok {
-		return
-	}
+func (r *Resolver) handleTriggerError(trig *trigger, data []byte) {
 	subs := trig.snapshotSubscriptions()
 
 	for _, s := range subs {
@@ -1499,11 +1507,8 @@ type pendingFilterError struct {
 }
 
 // handleTriggerUpdate sends data to all subscriptions of a trigger.
-func (r *Resolver) handleTriggerUpdate(id uint64, data []byte) {
-	trig, ok := r.getTrigger(id)
-	if !ok {
-		return
-	}
+func (r *Resolver) handleTriggerUpdate(trig *trigger, data []byte) {
+	id := trig.id
 	if r.options.Debug {
 		fmt.Printf("resolver:trigger:update:%d\n", id)
 	}
@@ -1528,11 +1533,8 @@ func (r *Resolver) handleTriggerUpdate(id uint64, data []byte) {
 }
 
 // handleUpdateSubscription sends data to a single subscription.
-func (r *Resolver) handleUpdateSubscription(id uint64, data []byte, subIdentifier SubscriptionIdentifier) {
-	trig, ok := r.getTrigger(id)
-	if !ok {
-		return
-	}
+func (r *Resolver) handleUpdateSubscription(trig *trigger, data []byte, subIdentifier SubscriptionIdentifier) {
+	id := trig.id
 
 	if r.options.Debug {
 		fmt.Printf("resolver:trigger:subscription:update:%d:%d,%d\n", id, subIdentifier.ConnectionID, subIdentifier.SubscriptionID)
@@ -1554,7 +1556,10 @@ func (r *Resolver) heartbeatTriggerSubscriptions(id uint64) {
 	if !ok {
 		return
 	}
+	r.heartbeatTrigger(trig)
+}
 
+func (r *Resolver) heartbeatTrigger(trig *trigger) {
 	subs := trig.snapshotSubscriptions()
 	targets := make([]*subscriptionState, 0, len(subs))
 	for _, s := range subs {
@@ -1938,6 +1943,10 @@ type subscriptionUpdater struct {
 	resolver  *Resolver
 	ctx       context.Context
 	subsFn    func() map[context.Context]SubscriptionIdentifier
+	// trig is the trigger this updater was created for. The trigger id is a hash of (input, headers),
+	// so once this trigger is gone a new trigger with the same id can be registered while the old
+	// source (and its start-up goroutine) are still running: they must only ever act on their own trigger.
+	trig *trigger
 }
 
 func (s *subscriptionUpdater) Update(data []byte) {
@@ -1949,7 +1958,7 @@ func (s *subscriptionUpdater) Update(data []byte) {
 	if s.debug {
 		fmt.Printf("resolver:subscription_updater:update:%d\n", s.triggerID)
 	}
-	s.resolver.handleTriggerUpdate(s.triggerID, data)
+	s.resolver.handleTriggerUpdate(s.trig, data)
 }
 
 func (s *subscriptionUpdater) Heartbeat() {
@@ -1958,7 +1967,7 @@ func (s *subscriptionUpdater) Heartbeat() {
 	if s.done || s.ctx.Err() != nil {
 		return
 	}
-	s.resolver.heartbeatTriggerSubscriptions(s.triggerID)
+	s.resolver.heartbeatTrigger(s.trig)
 }
 
 func (s *subscriptionUpdater) UpdateSubscription(id SubscriptionIdentifier, data []byte) {
@@ -1970,7 +1979,7 @@ func (s *subscriptionUpdater) UpdateSubscription(id SubscriptionIdentifier, data
 	if s.debug {
 		fmt.Printf("resolver:subscription_updater:update:%d\n", s.triggerID)
 	}
-	s.resolver.handleUpdateSubscription(s.triggerID, data, id)
+	s.resolver.handleUpdateSubscription(s.trig, data, id)
 }
 
 func (s *subscriptionUpdater) Subscriptions() map[context.Context]SubscriptionIdentifier {
@@ -1989,7 +1998,7 @@ func (s *subscriptionUpdater) Complete() {
 	if s.debug {
 		fmt.Printf("resolver:subscription_updater:complete:%d\n", s.triggerID)
 	}
-	s.resolver.handleTriggerComplete(s.triggerID)
+	s.resolver.handleTriggerComplete(s.trig)
 }
 
 func (s *subscriptionUpdater) Error(data []byte) {
@@ -2004,7 +2013,7 @@ func (s *subscriptionUpdater) Error(data []byte) {
 	if s.debug {
 		fmt.Printf("resolver:subscription_updater:error:%d\n", s.triggerID)
 	}
-	s.resolver.handleTriggerError(s.triggerID, data)
+	s.resolver.handleTriggerError(s.trig, data)
 }
 
 func (s *subscriptionUpdater) Done() {
@@ -2017,7 +2026,7 @@ func (s *subscriptionUpdater) Done() {
 	if s.debug {
 		fmt.Printf("resolver:subscription_updater:done:%d\n", s.triggerID)
 	}
-	s.resolver.doneTriggerFromUpdater(s.triggerID)
+	s.resolver.doneTriggerFromUpdater(s.trig)
 }
 
 func (s *subscriptionUpdater) CloseSubscription(id SubscriptionIdentifier) {
